@@ -1948,6 +1948,31 @@ def d4_criteria(ck):
                       'a missing %s must be replaced by %s (the value that never stops the loop); found `%s`, '
                       'a finite / input-dependent bound' % (name, want, u(x)[:100]))
 
+    # the dual obligation: a criterion that WAS given - 0 included, the one
+    # number that is falsy - reaches the guard as itself.  `n = n or np.inf`
+    # turns a requested count of 0 ("no further centre") into "unlimited";
+    # only identity tests against None may select the substitute.
+    for name in (NC, DC):
+        IN = null_run(fi, {name: nullness.NOTNONE})
+        for s in fi.cfg.nodes:
+            if not isinstance(s, (ast.Assign, ast.AnnAssign)) or _inside(mod, s, w):
+                continue
+            v = fi.def_value(s, name)
+            st = IN.get(s)
+            if v is None or st is None or st.get(name) != {_NN}:
+                continue
+            x = fi.expand(v)
+            if name not in names_loaded(x):
+                continue        # not a selection on the criterion itself: judged by the rules above
+            av = av_of(x, {name: ('num', 0)})
+            if av == AV_UNK:
+                continue
+            ck.check(av[0] in ('num', 'bool', 'zero') and (av[0] == 'zero' or not av[1]), rule + '.zero-kept', mod, s, 'kcenters',
+                     'criterion %s given as 0 -> %s' % (name, u(s)),
+                     'a criterion given as 0 stays 0',
+                     'a %s given as the number 0 is replaced by `%s` (truthiness instead of an identity test '
+                     'against None): the request "stop at 0" becomes a different stopping rule' % (name, _av_show(av)))
+
 
 def _mentions_infinity(e):
     for n in ast.walk(e):
